@@ -196,7 +196,9 @@ func runLattice(c VSCase, a *run.Acc) {
 		return el
 	}
 	all := mkEl(n, 1)
-	eligibles := [][]uint64{nil, {}, {5}, mkEl(n/2-1, 1), mkEl(n/2+1, 1), mkEl(n/2-3, 2), all[1:], all, all[:len(all)-1]}
+	// more than half eligible, with a hole inside AND ineligible documents above the highest eligible one
+	holeTop := append(append([]uint64{}, all[:5]...), all[6:3*n/4]...)
+	eligibles := [][]uint64{nil, {}, {5}, mkEl(n/2-1, 1), mkEl(n/2+1, 1), mkEl(n/2-3, 2), all[1:], all, all[:len(all)-1], holeTop}
 	queries := [][]float32{{0, 0}, {20, 15}, {39.4, 29.6}, {7.5, 3.5}, {1, 2, 3}}
 	for ei, except := range excepts {
 		// fresh segment per exclusion bitmap (see runSmallVec)
@@ -258,7 +260,7 @@ func init() {
 	run.Register(&run.Def{
 		ID:          "C14",
 		Level:       "exploration",
-		Rule:        "bounded-exhaustive (vectors tag, stand-in engine): every batch of N<=3 (quick) / N<=4 (thorough) documents over a 9-entry vector cell menu (none; one of 5 grid points in dimension 2; two vectors as one concatenated value; two identical vectors; two field instances) x metrics {L2, dot product, cosine}; for EVERY exclusion bitmap a fresh in-memory and a fresh re-opened segment; queries = every grid point + one of wrong dimension; k in {1,2,3,10}; unfiltered search and filtered search with EVERY eligible subset (incl. empty, all, and sets intersecting the exclusion bitmap); requiresFiltering both; fields v, a second 3-dimensional field, an absent field. Exact-class oracle: the returned set of (doc, score) pairs is the image of SOME choice of the k best non-excluded eligible vectors (contains every pair strictly better than the k-th best score, nothing worse, tie count consistent), every pair is a true score of one of that document's vectors; wrong dimension / no vectors -> empty; num_vectors statistic == indexed vectors. Clustered class: a 1200-document lattice (IVF index) with exclusions {none, 4 docs, every third} x eligible sets {none(unfiltered), empty, 1 doc, just below / above one half (both selector kinds), sparse, all-but-one, all, exactly the documents that have a vector (the lattice ends with one document without)} x k in {1,10}: soundness only (true scores, not excluded, eligible, <= k). Non-trivial = batch with >= 2 vectors.",
+		Rule:        "bounded-exhaustive (vectors tag, stand-in engine): every batch of N<=3 (quick) / N<=4 (thorough) documents over a 9-entry vector cell menu (none; one of 5 grid points in dimension 2; two vectors as one concatenated value; two identical vectors; two field instances) x metrics {L2, dot product, cosine}; for EVERY exclusion bitmap a fresh in-memory and a fresh re-opened segment; queries = every grid point + one of wrong dimension; k in {1,2,3,10}; unfiltered search and filtered search with EVERY eligible subset (incl. empty, all, and sets intersecting the exclusion bitmap); requiresFiltering both; fields v, a second 3-dimensional field, an absent field. Exact-class oracle: the returned set of (doc, score) pairs is the image of SOME choice of the k best non-excluded eligible vectors (contains every pair strictly better than the k-th best score, nothing worse, tie count consistent), every pair is a true score of one of that document's vectors; wrong dimension / no vectors -> empty; num_vectors statistic == indexed vectors. Clustered class: a 1200-document lattice (IVF index) with exclusions {none, 4 docs, every third} x eligible sets {none(unfiltered), empty, 1 doc, just below / above one half (both selector kinds), sparse, all-but-one, all, exactly the documents that have a vector (the lattice ends with one document without), three quarters with a hole inside} x k in {1,10}: soundness only (true scores, not excluded, eligible, <= k). Non-trivial = batch with >= 2 vectors.",
 		Assumptions: []string{"the vector engine is the pure-Go stand-in (DESIGN 3.4): exact brute force for flat indexes, deterministic IVF; real FAISS numerics are not covered", "vector ids contain 31 random bits; rand is seeded by the harness, id collisions are outside the alphabet"},
 		Bounds:      map[string]string{"quick": "N<=3", "thorough": "N<=4 (reduced menu for N=4)"},
 		New:         func() interface{} { return &VSCase{} },
